@@ -20,7 +20,7 @@ func TestVerifC09_oprf_keys(t *testing.T) {
 	r := verifmc.Start(t, "C09", "oprf_keys")
 	defer r.Finish()
 	r.Rule("per suite the compressed-format alphabet of the group units (flips of 1 quick / 10 thorough bases) and the ristretto255 alphabet, plus public keys derived by the library from 3 seeds; " +
-		"the element inside the accepted key is read in-package and re-marshalled uncompressed for comparison with the reference's point; distinct = distinct (suite, input bytes)")
+		"the element inside the accepted key is read in-package and re-marshalled uncompressed for comparison with the reference's point; every case also decoded into a key object that already holds the nearest valid key, and before it; distinct = distinct (suite, input bytes)")
 	type suiteT struct {
 		s     Suite
 		curve *wcurve.Curve
@@ -29,9 +29,9 @@ func TestVerifC09_oprf_keys(t *testing.T) {
 		st := st
 		var cases []c09ref.Case
 		if st.curve != nil {
-			cases = c09ref.SEC1Cases(st.curve, 1, c09ref.SEC1Options{FlipBases: r.Pick(1, 10)})
+			cases = c09ref.SEC1Cases(st.curve, 1, c09ref.SEC1Options{FlipBases: r.Pick(1, 10), Special: 8})
 		} else {
-			cases = c09ref.RistrettoCases(c09ref.EdOptions{FlipBases: r.Pick(1, 11)})
+			cases = c09ref.RistrettoCases(c09ref.EdOptions{FlipBases: r.Pick(1, 11), Special: 8})
 		}
 		for i, seed := range verifmc.SeedsN(32, r.Seed(), 3) {
 			sk, err := DeriveKey(st.s, VerifiableMode, seed, []byte("verif-c09"))
@@ -51,8 +51,9 @@ func TestVerifC09_oprf_keys(t *testing.T) {
 		}
 		cases = c09ref.Dedup(cases)
 		dec := make([]verifmc.DecCase, len(cases))
+		bases := c09ref.Bases(cases)
 		for i, cs := range cases {
-			dec[i] = verifmc.DecCase{Name: cs.Name, Class: cs.Class, Data: cs.Data}
+			dec[i] = verifmc.DecCase{Name: cs.Name, Class: cs.Class, Data: cs.Data, Base: bases[i]}
 		}
 		r.CheckDecoder(verifmc.DecSpec{Entry: "oprf.PublicKey.UnmarshalBinary/" + st.s.Identifier(), Cases: dec, RefAll: true,
 			Ref: func(in []byte) verifmc.DecOracle {
@@ -65,6 +66,17 @@ func TestVerifC09_oprf_keys(t *testing.T) {
 				return verifmc.DecOracle{Member: v.Member, Reason: v.Reason, Point: v.Point}
 			},
 			AcceptOnly: func(in []byte) bool { return new(PublicKey).UnmarshalBinary(st.s, in) == nil },
+			Seq: func(first, second []byte) verifmc.DecResult {
+				pk := new(PublicKey)
+				_ = pk.UnmarshalBinary(st.s, first)
+				if err := pk.UnmarshalBinary(st.s, second); err != nil {
+					return verifmc.DecResult{}
+				}
+				out, _ := pk.MarshalBinary()
+				res := verifmc.DecResult{Accepted: true, Reenc: out}
+				res.Point, _ = pk.e.MarshalBinary()
+				return res
+			},
 			Lib: func(in []byte) verifmc.DecResult {
 				pk := new(PublicKey)
 				if err := pk.UnmarshalBinary(st.s, in); err != nil {
@@ -84,4 +96,5 @@ func TestVerifC09_oprf_keys(t *testing.T) {
 	r.RequireCounter("in:alias", 2)
 	r.RequireCounter("in:rfc-invalid", 25)
 	r.RequireCounter("accepted", 100)
+	r.RequireCounter("reused_receiver_cases", 1500)
 }
